@@ -10,10 +10,17 @@ package postprocess
 //@ spec ownsGroup(response *resolve.GraphQLDeferResponse, id int) bool = exists k in 0..len(response.Defers) :: response.Defers[k].DeferID == id
 
 //@ func buildDeferTree.pruneDescriptorsWithoutFetches$1
+//@   let p0 = parentID
+//@   let n = len(response.DeferDescriptors)
+//@   let gp = ite(has(response.DeferDescriptors, parentID), response.DeferDescriptors[parentID].ParentID, 0)
 //@   ensures {nearest.ancestor.owns.a.group.or.top.level} result == 0 || has(hasGroup, result)
+//@   ensures {the.top.level.stays.the.top.level} p0 == 0 ==> result == 0
+//@   ensures {a.parent.that.owns.a.group.is.kept} n >= 1 && p0 != 0 && has(hasGroup, p0) ==> result == p0
+//@   ensures {a.dropped.parent.is.replaced.by.the.grandparent.when.that.owns.a.group.not.by.the.top.level} n >= 2 && p0 != 0 && !has(hasGroup, p0) && gp != 0 && has(hasGroup, gp) ==> result == gp
 //@   pure
 //@   loop 0:
-//@     invariant true
+//@     invariant phi1 >= 0 && phi1 < n
+//@     invariant (phi1 == 0 && parentID == p0) || (phi1 == 1 && p0 != 0 && !has(hasGroup, p0) && has(response.DeferDescriptors, p0) && parentID == gp) || (phi1 >= 2 && p0 != 0 && !has(hasGroup, p0) && gp != 0 && !has(hasGroup, gp))
 
 //@ func buildDeferTree.pruneDescriptorsWithoutFetches
 //@   requires response != nil
@@ -21,16 +28,21 @@ package postprocess
 //@   ensures {descriptors.are.dropped.never.invented} forall id :: has(response.DeferDescriptors, id) ==> old(has(response.DeferDescriptors, id))
 //@   ensures {kept.descriptors.keep.their.id} forall id :: has(response.DeferDescriptors, id) ==> response.DeferDescriptors[id].ID == old(response.DeferDescriptors[id].ID)
 //@   ensures {parents.own.a.group} arr(response.DeferDescriptors) != old(arr(response.DeferDescriptors)) ==> (forall id :: has(response.DeferDescriptors, id) ==> response.DeferDescriptors[id].ParentID == 0 || ownsGroup(response, response.DeferDescriptors[id].ParentID))
+//@   ensures {a.surviving.defer.whose.parent.was.dropped.moves.to.the.grandparent.when.that.owns.a.group} arr(response.DeferDescriptors) != old(arr(response.DeferDescriptors)) && old(len(response.DeferDescriptors)) >= 2 ==> (forall id :: has(response.DeferDescriptors, id) && old(response.DeferDescriptors[id].ParentID) != 0 && !ownsGroup(response, old(response.DeferDescriptors[id].ParentID)) && old(has(response.DeferDescriptors, response.DeferDescriptors[id].ParentID)) && old(response.DeferDescriptors[response.DeferDescriptors[id].ParentID].ParentID) != 0 && ownsGroup(response, old(response.DeferDescriptors[response.DeferDescriptors[id].ParentID].ParentID)) ==> response.DeferDescriptors[id].ParentID == old(response.DeferDescriptors[response.DeferDescriptors[id].ParentID].ParentID))
 //@   ensures {groups.untouched} response.Defers == old(response.Defers)
 //@   modifies response.DeferDescriptors
 //@   loop 0:
 //@     invariant fresh(hasGroup)
 //@     invariant forall id :: has(hasGroup, id) ==> ownsGroup(response, id)
+//@     invariant forall q in 0..len(response.Defers) :: q <= phi0 ==> has(hasGroup, response.Defers[q].DeferID)
 //@   loop 1:
 //@     invariant !orphans ==> (forall id :: visited(0, id) ==> has(hasGroup, id))
+//@     invariant forall q in 0..len(response.Defers) :: has(hasGroup, response.Defers[q].DeferID)
 //@   loop 2:
 //@     invariant fresh(pruned)
+//@     invariant forall q in 0..len(response.Defers) :: has(hasGroup, response.Defers[q].DeferID)
 //@     invariant forall id :: has(pruned, id) ==> has(hasGroup, id) && has(response.DeferDescriptors, id) && pruned[id].ID == response.DeferDescriptors[id].ID && (pruned[id].ParentID == 0 || has(hasGroup, pruned[id].ParentID))
+//@     invariant {re.parenting.goes.to.the.grandparent.that.owns.a.group} len(response.DeferDescriptors) >= 2 ==> (forall id :: has(pruned, id) && response.DeferDescriptors[id].ParentID != 0 && !has(hasGroup, response.DeferDescriptors[id].ParentID) && has(response.DeferDescriptors, response.DeferDescriptors[id].ParentID) && response.DeferDescriptors[response.DeferDescriptors[id].ParentID].ParentID != 0 && has(hasGroup, response.DeferDescriptors[response.DeferDescriptors[id].ParentID].ParentID) ==> pruned[id].ParentID == response.DeferDescriptors[response.DeferDescriptors[id].ParentID].ParentID)
 
 //@ func buildDeferTree.Process$1
 //@   assumes {defer.ids.are.non.negative.counters.so.the.difference.does.not.wrap} a != nil && b != nil && a.DeferID >= 0 && b.DeferID >= 0
